@@ -6,7 +6,8 @@ RULE = ("combining frame: exhaustive over all key sequences of length <= 5 (quic
         "tables of initial capacity 1 and 8 with scratch 1 and 2, compacted at the end and once in the middle; random op "
         "sequences combine/compact with capacities {1,2,4,8,16}, scratch {1,2,3,8}, up to 60 rows, Zipf-like keys; "
         "observed after every op: rows (sorted), Len, Cap, threshold; combiner: chunk {1,2,4,8}, spill target 1..6, up to 8 "
-        "Combine calls, Reader drained with random destination sizes, spill directories counted; "
+        "Combine calls, Reader drained with random destination sizes, spill directories counted; plus combiners fed 200..1000 "
+        "rows over 140..500 keys with spill targets 130..1000, so that spilled runs exceed the 128-row merge buffers; "
         "non-trivial = a key occurs twice or the table grows")
 TRUST = ["sort.Sort sorts given Frame.Less/Swap (C11)", "sliceio.Spiller stores and returns the frames it is given (C07 codec)"]
 ASSUMPTIONS = ["the combine function is commutative and associative (the harness uses +)",
@@ -48,6 +49,28 @@ def gen(r, tier):
         else:
             ops.append("discard")
         yield "CB %d %d ; %s" % (r.choice([1, 2, 4, 8]), r.rng(1, 6), " ; ".join(ops))
+
+
+def gen_big(r, n):
+    """spilled runs longer than the 128-row buffers of the reduce-merge: the refill paths of sortio's reader"""
+    for _ in range(n):
+        ops = []
+        nkeys = r.choice([140, 200, 300, 500])
+        for _ in range(r.rng(2, 4)):
+            rows = ["%d:%d" % (r.below(nkeys), r.rng(0, 30)) for _ in range(r.rng(100, 260))]
+            ops.append("combine " + " ".join(rows))
+        # a few rows that stay in memory
+        ops.append("combine " + " ".join("%d:%d" % (r.below(nkeys), 100) for _ in range(r.rng(0, 5))))
+        ops.append("reader DEST " + " ".join(str(r.choice([1, 7, 64, 128, 200])) for _ in range(r.rng(1, 3))))
+        yield "CB %d %d ; %s" % (r.choice([8, 128]), r.choice([130, 150, 256, 300, 1000]), " ; ".join(ops))
+
+
+_gen_small = gen
+
+
+def gen(r, tier):
+    yield from _gen_small(r, tier)
+    yield from gen_big(r, 60 if tier == "quick" else 1500)
 
 
 def nontrivial(case, obs):
